@@ -579,6 +579,40 @@ func execLine(h *hist, line string) (out string) {
 		return join(kv("c", showB(stable(q().Add(mk()).Encode))), kv("c1", showB(mk().Add(q()).Encode())),
 			kv("c2", showB(q().Subtract(mk()).Encode())), kv("c3", showB(mk().Double().Add(q()).Encode())),
 			kv("c4", showB(mk().Negate().Add(q()).Encode())), kv("c5", b2s(mk().Add(mk()).IsIdentity())))
+	case "PT.viaapi":
+		// a[0..2]: a point P; a[3..5]: a point Q; a[6]: where the variable comes from (base | dec: decoded from Encode(P));
+		// a[7]: how it is then overwritten in place (set | mul | dbl | add | neg | ident | none); a[8]: a scalar for mul.
+		// An operand with a history: whatever an element remembers about how it was produced must not outlive the value.
+		mk := func() *secp.Element {
+			var v *secp.Element
+			if a[6] == "base" {
+				v = secp.Base()
+			} else {
+				v = secp.NewElement()
+				if err := v.Decode(el(parseP(a[0:3])).Encode()); err != nil {
+					v = secp.Base()
+				}
+			}
+			switch a[7] {
+			case "set":
+				v.Set(el(parseP(a[3:6])))
+			case "mul":
+				v.Multiply(scOpt(a[8]))
+			case "dbl":
+				v.Double()
+			case "add":
+				v.Add(el(parseP(a[3:6])))
+			case "neg":
+				v.Negate()
+			case "ident":
+				v.Identity()
+			}
+			return v
+		}
+		p := func() *secp.Element { return el(parseP(a[0:3])) }
+		return join(kv("c", showB(stable(p().Add(mk()).Encode))), kv("c1", showB(mk().Add(p()).Encode())),
+			kv("c2", showB(p().Subtract(mk()).Encode())), kv("c3", showB(mk().Double().Encode())),
+			kv("c4", showB(mk().Encode())), kv("r", strconv.Itoa(p().Equal(mk()))))
 	case "PT.enc":
 		p := el(parseP(a))
 		mb := stable(func() []byte { b, _ := p.MarshalBinary(); return b })
